@@ -2071,6 +2071,43 @@ fn job_skip_grad(rng: &mut Rng, variant: usize, kmax: usize) -> Fals {
     f
 }
 
+/// one skip connection into a flat input of 5184 / 4422 / 10000 values (beyond 2^12, no multiple of 2^12): predict
+/// against the hand composition conv -> acc(flattened conv output, flattened image) -> dense
+fn job_skip_forward_huge(_rng: &mut Rng, variant: usize) -> Fals {
+    let mut f = Fals::new();
+    let acc = ALL_ACCS[variant % 5];
+    let (h, w) = [(72usize, 72usize), (66, 67), (100, 100)][(variant / 5) % 3];
+    let input = Sh::Sp(1, h, w);
+    let c = Simple::Conv { filters: 1, kernel: (1, 1), stride: (1, 1), padding: (0, 0), dilation: (1, 1), act: Act::Linear, dropout: None };
+    let d = Simple::Dense { out: 2, act: Act::Linear, bias: false, dropout: None };
+    let mut spec = NetSpec::new(input.to_shape());
+    let wd: Vec<f32> = (0..2 * h * w).map(|i| ((i * 13) % 31) as f32 * 0.01 - 0.15).collect();
+    spec.weights = Some(vec![LW::One(W::Kernels(vec![t3(1, 1, 1, &[0.5])])), LW::One(W::Dense(t2(2, h * w, &wd), None))]);
+    spec.layers.push(LayerSpec::One(c));
+    spec.layers.push(LayerSpec::One(d));
+    spec.connect = vec![(0, 1)];
+    spec.skipacc = acc;
+    let xv: Vec<f32> = (0..h * w).map(|i| ((i * 7) % 23) as f32 * 0.1 - 1.0).collect();
+    let x = tensor_of_shape(&input.to_shape(), &xv);
+    let n = match catch_unwind(AssertUnwindSafe(|| spec.build())) { Ok(n) => n, Err(_) => return f };
+    let key = format!("skip-predict/{:?}/huge-flat-target", acc);
+    let r = catch_unwind(AssertUnwindSafe(|| {
+        let p = n.predict(&x);
+        let (_, y0, _) = layer_fwd(&n.layers[0], &x);
+        let o = flat_of(&y0);
+        let v: Vec<f32> = o.iter().zip(xv.iter()).map(|(o, s)| acc_apply(acc, *o, *s)).collect();
+        let (_, want, _) = layer_fwd(&n.layers[1], &t1(v));
+        (p, want)
+    }));
+    match r {
+        Ok((p, want)) => f.check(&key, close(&p, &want), "predict of a network with a skip connection into a huge flat input differs from feeding the target with acc(ordinary input, input of the source)", || {
+            format!("1x{}x{} image -> conv 1x1 (0.5) -> dense 2, connect(0, 1), {:?}: predict {}; expected {}", h, w, acc, show_t(&p), show_t(&want))
+        }),
+        Err(_) => f.check(&key, false, "predict panicked on a valid network", || format!("1x{}x{} image, connect(0, 1), {:?}", h, w, acc)),
+    }
+    f
+}
+
 pub fn fals_c16(rng: &mut Rng, thorough: bool) -> Fals {
     let m = if thorough { 24 } else { 2 };
     let kmax = if thorough { 8 } else { 5 };
@@ -2080,9 +2117,13 @@ pub fn fals_c16(rng: &mut Rng, thorough: bool) -> Fals {
             jobs.push((kind, v));
         }
     }
+    for v in 0..(if thorough { 15 } else { 5 }) {
+        jobs.push(("forward-huge", v));
+    }
     let f = run_jobs(rng, jobs, kmax, &|r, k, v, kmax| match k {
         "builder" => job_connect_builder(r, v),
         "forward" => job_skip_forward(r, v),
+        "forward-huge" => job_skip_forward_huge(r, v),
         _ => job_skip_grad(r, v, kmax),
     });
     dump_stats("C16");
